@@ -964,9 +964,9 @@ Lemma ideal_step_same f I J p : same_at f I J -> op_file p = f -> same_at f (ide
 Proof.
   unfold same_at. intros H E. destruct p as [g d|g b o len|g b o data|g|g|g]; cbn [op_file] in E; subst g;
     cbn [ideal_step]; auto.
-  - destruct (f <? 0); auto. destruct (I f), (J f); try tauto; auto. now rewrite !iupd_same.
-  - destruct (I f) as [m|], (J f) as [m'|]; try tauto. rewrite !iupd_same. intros p. unfold store_write.
-    destruct (_ && _); auto.
+  - destruct (f <? 0); auto. destruct (I f) eqn:EI, (J f) eqn:EJ; try tauto; rewrite ?EI, ?EJ, ?iupd_same; auto.
+  - destruct (I f) as [m|] eqn:EI, (J f) as [m'|] eqn:EJ; try tauto; rewrite ?EI, ?EJ, ?iupd_same; auto.
+    intros p. unfold store_write. destruct (_ && _); auto.
   - now rewrite !iupd_same.
 Qed.
 Lemma ideal_step_other f I p : op_file p <> f -> ideal_step I p f = I f.
